@@ -78,7 +78,7 @@ theorem quiescentOk_of_S {st : C09St} (h : st.quiescentOkS = true) : st.quiescen
       | false => rfl
       | true => simpa [required_requiredS hreq] using hS'
 
-theorem c09q_final {s : BrSt} {σ : C09St} {W : List Nat} {H : List GE} (hi : C09Inv s σ W H []) (hq : QInv s σ H)
+theorem c09q_final {s : BrSt} {σ : C09St} {W : List Nat} {H : List GE} (hi : C09Inv s σ W H []) (hq : QInv09 s σ H)
     (hf : s.flight = []) : σ.quiescentOkS = true := by
   unfold C09St.quiescentOkS
   rw [List.all_eq_true]
@@ -151,12 +151,12 @@ theorem C09q_holds' (ls : List BLabel) (s : BrSt) (hr : brun BrSt.init ls = some
 
 /-! ### non-vacuity -/
 
-def qOk (ls : List BLabel) : Bool :=
+def qOk09 (ls : List BLabel) : Bool :=
   match monC09.run monC09.init ls with
   | some σ => σ.quiescentOk
   | none => false
 
-def qOkS (ls : List BLabel) : Bool :=
+def qOkS09 (ls : List BLabel) : Bool :=
   match monC09.run monC09.init ls with
   | some σ => σ.quiescentOkS
   | none => false
@@ -180,38 +180,38 @@ def c09qExample : List BLabel :=
 /-- the hypotheses of `C09q_holds` are satisfiable by a non-trivial run ... -/
 example : isSettled c09qExample = true ∧ wf09 c09qExample = true := by decide
 /-- ... on which the check is not vacuous: some `(c, P)` is required (and was taken up) -/
-example : qOk c09qExample = true ∧ qOkS c09qExample = true := by decide
+example : qOk09 c09qExample = true ∧ qOkS09 c09qExample = true := by decide
 example : (match monC09.run monC09.init c09qExample with
     | some σ => σ.ops.any (fun P => σ.required 1 P) && σ.ops.any (fun P => !σ.required 1 P && σ.requiredS 1 P)
     | none => false) = true := by decide
 
 /-- the check rejects: a subscriber definitely subscribed before the publish never takes the publication up -/
-example : qOk [ .bbegin 0 (.sub 1), .bret 0, .bbegin 1 (.pub 5), .bret 1 ] = false := by decide
+example : qOk09 [ .bbegin 0 (.sub 1), .bret 0, .bbegin 1 (.pub 5), .bret 1 ] = false := by decide
 /-- one of two subscribers is left out -/
-example : qOk [ .bbegin 0 (.sub 1), .bret 0, .bbegin 1 (.sub 2), .bret 1, .bbegin 2 (.pub 5), .bret 2,
+example : qOk09 [ .bbegin 0 (.sub 1), .bret 0, .bbegin 1 (.sub 2), .bret 1, .bbegin 2 (.pub 5), .bret 2,
     .deliver 1 5 ] = false := by decide
 /-- re-subscribed after an unsubscribe that returned: required again -/
-example : qOk [ .bbegin 0 (.sub 1), .bret 0, .bbegin 1 (.unsub 1), .bret 1, .bbegin 2 (.sub 1), .bret 2,
+example : qOk09 [ .bbegin 0 (.sub 1), .bret 0, .bbegin 1 (.unsub 1), .bret 1, .bbegin 2 (.sub 1), .bret 2,
     .bbegin 3 (.pub 5), .bret 3 ] = false := by decide
 /-- excused: the subscriber terminated / the subscribe overlaps the publish / the publish has not returned -/
-example : qOk [ .bbegin 0 (.sub 1), .bret 0, .bbegin 1 (.pub 5), .bret 1, .term 1 ] = true := by decide
-example : qOk [ .bbegin 0 (.sub 1), .bbegin 1 (.pub 5), .bret 0, .bret 1 ] = true := by decide
-example : qOk [ .bbegin 0 (.sub 1), .bret 0, .bbegin 1 (.pub 5) ] = true := by decide
+example : qOk09 [ .bbegin 0 (.sub 1), .bret 0, .bbegin 1 (.pub 5), .bret 1, .term 1 ] = true := by decide
+example : qOk09 [ .bbegin 0 (.sub 1), .bbegin 1 (.pub 5), .bret 0, .bret 1 ] = true := by decide
+example : qOk09 [ .bbegin 0 (.sub 1), .bret 0, .bbegin 1 (.pub 5) ] = true := by decide
 /-- an unsubscribe after the publish returned excuses under `required`, not under `requiredS` -/
-example : qOk [ .bbegin 0 (.sub 1), .bret 0, .bbegin 1 (.pub 5), .bret 1, .bbegin 2 (.unsub 1), .bret 2 ] = true ∧
-    qOkS [ .bbegin 0 (.sub 1), .bret 0, .bbegin 1 (.pub 5), .bret 1, .bbegin 2 (.unsub 1), .bret 2 ] = false := by
+example : qOk09 [ .bbegin 0 (.sub 1), .bret 0, .bbegin 1 (.pub 5), .bret 1, .bbegin 2 (.unsub 1), .bret 2 ] = true ∧
+    qOkS09 [ .bbegin 0 (.sub 1), .bret 0, .bbegin 1 (.pub 5), .bret 1, .bbegin 2 (.unsub 1), .bret 2 ] = false := by
   decide
 
 /-! `mbox = []` and `flight = []` are needed: runs of the model that fail the check because ... -/
 /-- ... the publication is still on its way (`flight ≠ []`) -/
 example : (brun BrSt.init [ .bbegin 0 (.sub 1), .benq 0, .bproc, .bret 0, .bbegin 1 (.pub 5), .benq 1, .bproc,
       .bret 1 ]).isSome = true ∧
-    qOk [ .bbegin 0 (.sub 1), .benq 0, .bproc, .bret 0, .bbegin 1 (.pub 5), .benq 1, .bproc, .bret 1 ] = false := by
+    qOk09 [ .bbegin 0 (.sub 1), .benq 0, .bproc, .bret 0, .bbegin 1 (.pub 5), .benq 1, .bproc, .bret 1 ] = false := by
   decide
 /-- ... the broker has not handled the publish yet (`mbox ≠ []`; a publish returns once it is in the mailbox) -/
 example : (brun BrSt.init [ .bbegin 0 (.sub 1), .benq 0, .bproc, .bret 0, .bbegin 1 (.pub 5), .benq 1,
       .bret 1 ]).isSome = true ∧
-    qOk [ .bbegin 0 (.sub 1), .benq 0, .bproc, .bret 0, .bbegin 1 (.pub 5), .benq 1, .bret 1 ] = false := by
+    qOk09 [ .bbegin 0 (.sub 1), .benq 0, .bproc, .bret 0, .bbegin 1 (.pub 5), .benq 1, .bret 1 ] = false := by
   decide
 
 /-- `pend = []` is not needed (`C09qs_holds`): an unsubscribe and a publish that have begun and not yet entered the
@@ -220,7 +220,7 @@ example : (match brun BrSt.init [ .bbegin 0 (.sub 1), .benq 0, .bproc, .bret 0, 
       .bret 1, .deliver 1 5, .bbegin 2 (.unsub 1), .bbegin 3 (.pub 6) ] with
     | some s => !s.pend.isEmpty && s.mbox.isEmpty && s.flight.isEmpty
     | none => false) = true ∧
-    qOkS [ .bbegin 0 (.sub 1), .benq 0, .bproc, .bret 0, .bbegin 1 (.pub 5), .benq 1, .bproc,
+    qOkS09 [ .bbegin 0 (.sub 1), .benq 0, .bproc, .bret 0, .bbegin 1 (.pub 5), .benq 1, .bproc,
       .bret 1, .deliver 1 5, .bbegin 2 (.unsub 1), .bbegin 3 (.pub 6) ] = true := by decide
 
 end Hannibal
